@@ -137,4 +137,15 @@ PROPS = {
         level_text="Generated-input search: every exported entry point of v5 and of the staged legacy package is called (inside recover) with hostile byte strings and with hostile documents x patches from a loose grammar under all option combinations, root replacements first, and nesting at 9 999/10 000/10 001 levels; the thorough tier adds coverage-guided native fuzzing of the same check. A violation is a recovered panic, a dead process, or a confirmed hang. Exploration only.",
         level_note="Trusted: recover() observes every panic of the calling goroutine (the library starts no goroutines). Outside the stated domain and not generated: nil options, hand-assembled Patch values, array indices above 10^4 under EnsurePathExistsOnAdd.",
     ),
+    "C16": dict(
+        pkg="c16",
+        units=[plain("TestEnumBytes", shards=dict(quick=8, thorough=16)), plain("TestEnumTokens", shards=dict(quick=4, thorough=16)),
+               plain("TestDepthLimit", shards=dict(quick=1, thorough=1)),
+               rapid("TestProp", 20000, 300000), rapid("TestPropEntry", 20000, 300000), fuzz("FuzzValid", 120)],
+        exhaustive_units=["enum-bytes", "enum-tokens"],
+        assumptions=COMMON_ASSUME + ["the recogniser harness/ref.Valid implements the RFC 8259 ABNF with the codec's nesting limit of 10000; it is cross-checked against encoding/json.Valid of the default toolchain on every input (a disagreement between those two is reported as a harness fault, not as a library defect)"],
+        technique="bounded exhaustive enumeration (all byte strings <= L over a 29-symbol alphabet, all token sequences <= L) plus property-based testing (rapid) of unbounded mutated texts and of every public entry point, differential against an independent RFC 8259 recogniser and encoding/json; native fuzzing in the thorough tier",
+        level_text="Exhaustive over two bounded spaces (every byte string of length <= 5 (quick) / 6 (thorough) over a 29-symbol alphabet; every sequence of <= 5/6 JSON tokens) and generated-input search beyond them (mutated texts, grammar corners, exact nesting limits, whitespace-padded and damaged arguments of every public entry point): acceptance by Valid/Compact/Indent/Unmarshal and by the public functions must coincide with the recogniser. Exhaustive only within the stated bounds; exploration elsewhere.",
+        level_note="Trusted: harness/ref.Valid (cross-checked against encoding/json.Valid on every input). Known finding (listed, not repaired): Patch.Apply* returns (doc, nil) for a zero-length document.",
+    ),
 }
